@@ -686,8 +686,9 @@ class RRegression(base.MergeableMetric):
     Returns:
       The updated Class.
     """
-    x = np.asarray(x)
-    y = np.asarray(y)
+    # In floating point: the squares and products overflow the integer dtypes.
+    x = np.asarray(x, dtype=np.float64)
+    y = np.asarray(y, dtype=np.float64)
 
     self.num_samples += len(y)
     self.sum_x += np.sum(x, axis=0)
